@@ -118,15 +118,19 @@ GLM_FUNC_QUALIFIER glm_vec4 glm_vec4_sign(glm_vec4 x)
 
 GLM_FUNC_QUALIFIER glm_vec4 glm_vec4_round(glm_vec4 x)
 {
+	// round half away from zero, as the generic round(): trunc(|x| + 0.5 - ulp) with the sign of x put back
+	glm_vec4 const sgn0 = _mm_castsi128_ps(_mm_set1_epi32(int(0x80000000)));
+	glm_vec4 const and0 = _mm_and_ps(sgn0, x);
+	glm_vec4 const abs0 = _mm_andnot_ps(sgn0, x);
+	glm_vec4 const add0 = glm_vec4_add(abs0, _mm_set1_ps(0.49999997f));
 #	if GLM_ARCH & GLM_ARCH_SSE41_BIT
-		return _mm_round_ps(x, _MM_FROUND_TO_NEAREST_INT);
+		glm_vec4 const trc0 = _mm_round_ps(add0, _MM_FROUND_TO_ZERO);
+		return _mm_or_ps(trc0, and0);
 #	else
-		glm_vec4 const sgn0 = _mm_castsi128_ps(_mm_set1_epi32(int(0x80000000)));
-		glm_vec4 const and0 = _mm_and_ps(sgn0, x);
-		glm_vec4 const or0 = _mm_or_ps(and0, _mm_set_ps1(8388608.0f));
-		glm_vec4 const add0 = glm_vec4_add(x, or0);
-		glm_vec4 const sub0 = glm_vec4_sub(add0, or0);
-		return sub0;
+		glm_vec4 const trc0 = _mm_cvtepi32_ps(_mm_cvttps_epi32(add0));
+		glm_vec4 const cmp0 = _mm_cmplt_ps(abs0, _mm_set1_ps(8388608.0f)); // values from 2^23 are integers already
+		glm_vec4 const sel0 = _mm_or_ps(_mm_and_ps(cmp0, trc0), _mm_andnot_ps(cmp0, abs0));
+		return _mm_or_ps(sel0, and0);
 #	endif
 }
 
